@@ -14,7 +14,7 @@ var symbolUniverse = []string{
 	"main.main", "main.foo", "main.(*T).run", "main.main.func1",
 	"runtime.gopark", "runtime.goexit", "fmt.Println", "sync.(*Mutex).Lock",
 	"github.com/x/y.Z", "github.com/x/y.(*T).m", "gopkg.in/yaml%2ev2.Unmarshal",
-	"example.com/mod/pkg.Do", "golang.org/x/sys/unix.Syscall",
+	"example.com/mod/pkg.Do", "golang.org/x/sys/unix.Syscall", "example.com/a/vendor/github.com/p/q.Run", "example.com/a/vendor/b/vendor/c.f",
 }
 
 type fileChoice struct {
